@@ -11,6 +11,16 @@ def check(events, task_plot=False, level2=False):
     """Returns (violations [(key, text)], stats dict)."""
     V = []
     st = Counter()
+    # traces of --task-based-rhd runs also contain the hydro worker loop: drop its events (C07 checks those)
+    hydro_ids = set(e[3] for e in events if e[2] == E["HYDRO_TASK"])
+    if hydro_ids:
+        first_hydro = tr.T["GRADIENTSWEEP_INTERNAL"]
+        last_hydro = tr.T["UPDATE_PRIMITIVES"]
+        events = [e for e in events if not (
+            e[2] in (E["HYDRO_TASK"], E["HYDRO_TASK_CHILD"], E["HYDRO_STEP_BEGIN"], E["HYDRO_STEP_END"], E["HYDRO_PARENTS"])
+            or (e[2] in (E["TASK_START"], E["TASK_END"]) and first_hydro <= e[4] <= last_hydro)
+            or (e[2] == E["TASK_ENQUEUE"] and e[3] in hydro_ids))]
+        st["rhd_traces"] = 1
     if any(e[2] == E["TRACE_OVERFLOW"] for e in events):
         st["trace_overflow"] = 1
         return V, st
